@@ -185,12 +185,21 @@ def shard(task):
     def run(blob, password, label, extra, case):
         with open(path, "wb") as f:
             f.write(blob)
-        for supplied in ((True, False) if password is None else (True,)):
-            # password None + "supplied" means: a password is given although the archive needs none
+        plain_header = True
+        if password is not None:
+            try:
+                ref7z.read(blob, password=None, strict=False, decode=False)
+            except Exception:
+                plain_header = False  # the listing cannot be had without the password
+        for supplied in ((True, False) if password is None or plain_header else (True,)):
+            # password None + "supplied" means: a password is given although the archive needs none;
+            # password set + not supplied: the header is readable without it, so the listings must be too
             pw = password if password is not None else ("unneeded-pw" if supplied else None)
             if password is None and supplied and not extra.get("try_unneeded_pw"):
                 continue
-            r = judge(path, pw, pw is not None, wd)
+            sup = supplied if password is not None else pw is not None
+            r = judge(path, pw, sup, wd)
+            case = dict(case, supplied=sup, unneeded=password is None and pw is not None)
             for sym, msg in r:
                 if sym.startswith("harness:"):
                     sh.count(sym)
@@ -288,9 +297,25 @@ def replay(case):
             blob, pw = ref7z.write(rc["members"], rc["layout"], password=rc["password"]), rc["password"]
         with open(path, "wb") as f:
             f.write(blob)
-        return judge(path, pw, pw is not None, wd)
+        if case.get("unneeded"):
+            pw = "unneeded-pw"
+        return judge(path, pw, case.get("supplied", pw is not None), wd)
     finally:
         shutil.rmtree(wd, ignore_errors=True)
+
+
+def mixed_specs(tier):
+    """Sessions whose folders differ in coders - in particular encrypted next to unencrypted folders (added after seeded change C10b)."""
+    A, P = ("LZMA2+AES", "raw"), ("LZMA2", "raw")
+    combos = [(P, A), (A, P), (P, A, P), (A, ("COPY", "encoded")), (("BZIP2", "raw"), ("COPY+AES", "encoded"))]
+    if tier != "quick":
+        combos += [(A, A, P), (P, P, A), (("DELTA+LZMA2+AES", "raw"), ("ZSTD", "raw")), (("PPMD", "raw"), ("X86+LZMA2+AES", "raw"), ("BROTLI", "raw"))]
+    kinds = ("str1", "str2") if tier == "quick" else ("str1", "str2", "tree", "zero")
+    out = []
+    for combo in combos:
+        for mk in kinds:
+            out.append({"sessions": [(mk if i != 1 else "str1", c, h) for i, (c, h) in enumerate(combo)], "target": "path"})
+    return out
 
 
 def main(tier="quick", seed=0, only=None):
@@ -302,6 +327,7 @@ def main(tier="quick", seed=0, only=None):
     tasks.append(("P3", ([], 0, seed)))
     tasks += [("P3", (child, bound, seed)) for child in explore.children(probe, 0, bound)]
     specs = [s for s in c07.session_specs(tier) if len(s["sessions"]) <= (2 if tier == "quick" else 3) and s["target"] == "path"]
+    specs += mixed_specs(tier)
     tasks += [("S", c) for c in chunks(specs, 10)]
     tasks += [("R", c) for c in chunks(ref_layout_cases(), 4)]
     with Pool() as pool:
@@ -311,7 +337,7 @@ def main(tier="quick", seed=0, only=None):
     return chk.finish(
         rule=(
             f"archives: C01-P3 configurations within {bound} deviation(s) of the default; C07 append sessions (every single session and ordered "
-            "pair over 8 member-list kinds incl. directories, empty files, symlinks; thorough: triples); reference-written layouts (default + "
+            "pair over 8 member-list kinds incl. directories, empty files, symlinks; thorough: triples), sessions whose folders mix encrypted and unencrypted chains, each also opened WITHOUT the password when the header is readable without it; reference-written layouts (default + "
             "each single layout deviation, AES, header-only AES, no-streams, empty). Each is written to a file, opened by path and judged: "
             "getnames == namelist == list() == files in stored order; sizes and CRCs against the bytes; getinfo for every name with and "
             "without trailing slash, KeyError for absent; archiveinfo() total / blocks / solid / method names / size against the structure "
